@@ -172,6 +172,12 @@ def run_scenario(ctx, rng, seed, replay):
         before_store = sc.store_snapshot()
         for b in batch:
             h.at(t, sc.prot.datagram_received, b["data"], b["sender"], b["mc"])
+        if sc.mode == "normal" and sc.ct and rng.random() < 0.12:
+            # ... and a stop()+start() shortly BEFORE the batch: StopOffers / Offers are waiting in the multicast collection
+            # window when the Subscribes arrive - the acknowledgements still go to the sender, and only there
+            ann0 = sc.prot.announcer
+            h.at(t - sc.ct / 2, lambda: (ann0.stop(), ann0.start()))
+            ctx.count("subscribes_while_the_multicast_window_is_open")
         if sc.mode == "normal" and rng.random() < 0.2:
             # the announcer is stopped and started again while the acknowledgements of this batch are still waiting in their
             # collection window (or right behind the batch when nothing is collected): they still leave, and later batches
@@ -179,6 +185,15 @@ def run_scenario(ctx, rng, seed, replay):
             ann = sc.prot.announcer
             h.at(t + (sc.ct / 2 if sc.ct else 0.0), lambda: (ann.stop(), ann.start()), rank=AFTER)
             ctx.count("announcer_restarts_inside_the_answer_window")
+        uc = [b for b in batch if not b["mc"]]
+        if sc.ct and uc and rng.random() < 0.12:
+            # the subscriber restarts and says so (session id starts over) while its acknowledgements are still waiting in
+            # the collection window: they are owed all the same
+            who = rng.choice(uc)["sender"]
+            sc.sess[who].reboot()
+            fl2, sid2 = sc.sess[who].next("u")
+            h.at(t + sc.ct / 2, sc.prot.datagram_received, net.sd_bytes([net.find(0x7F7F, 1, 1, 0)], sid2, reboot=fl2), who, False)
+            ctx.count("sender_reboots_inside_the_answer_window")
         h.run(t + max(sc.ct, 0) + 2.0 ** -6)
         ctx.count("messages", len(batch))
         ctx.count("subscribe_entries", sum(len(b["entries"]) for b in batch))
